@@ -292,7 +292,10 @@ class CliCampaign:
         groups = {}
         for it in self.items:
             dsc = it["desc"]
-            ev = {"k": "run", "key": it["key"], "exit": it["exit"] if it["exit"] in (0, 1) else 99,
+            # exit status: 0 = Ok, any other ordinary status = error exit (normalised to 1); 101 (Rust panic),
+            # statuses >= 128 / negative (signals) and timeouts are abnormal
+            ex = it["exit"]
+            ev = {"k": "run", "key": it["key"], "exit": 0 if ex == 0 else (1 if (0 < ex < 128 and ex != 101) else 99),
                   "has_order": it["order"] is not None, "order_chars": chars(it["order"] or ""), "formula_chars": chars(it["text"]),
                   "filter": it["filter"], "retain": it["retain"], "model": it["model"], "argv": it["argv"], "text": it["text"], "order": it["order"] if it["order"] is not None else ""}
             try:
